@@ -2,7 +2,7 @@
     BeginBlocker, with StartInitialEpoch / EndEpoch of types/epoch_info.go inlined; Gen/KEpochs.v, written by
     tools/gokernel on every run) and Model.Epochs.tick. *)
 From Coq Require Import ZArith List Bool String Lia.
-From Canto Require Import Lib.SdkInt Lib.SdkDec Model.Epochs Gen.KEpochs.
+From Canto Require Import Lib.SdkInt Lib.SdkDec Model.Epochs Gen.KEpochs Gen.AgreeTactics.
 Import ListNotations.
 Open Scope Z_scope.
 
@@ -21,9 +21,10 @@ Definition encode (r : epoch * list hook) : list Z :=
 Lemma agree_BeginBlocker : forall e t h,
   gen_BeginBlocker (e_cur e) (e_cur_start e) (e_dur e) (e_started e) (e_start e) h t = Some (encode (tick t h e)).
 Proof.
-  intros. unfold gen_BeginBlocker, tick, encode.
-  destruct (negb (e_started e) && negb (t <? e_start e)); [reflexivity|].
-  destruct ((e_cur_start e + e_dur e <? t) && negb false && negb (t <? e_start e)); reflexivity.
+  intros. unfold gen_BeginBlocker, tick, encode. cbv zeta.
+  (* every boolean combination of the three atomic facts *)
+  destruct (e_started e); destruct (t <? e_start e); destruct (e_cur_start e + e_dur e <? t);
+    cbn [negb andb fst snd]; first [ reflexivity | normalise ].
 Qed.
 
 (* nothing of the record changes unless one of the two branches is taken, and a branch is taken exactly when
